@@ -199,6 +199,138 @@ def match_copy(eng, res, rule="R-MATCH-COPY"):
                          "Harmless while every copy owns its own `_big` (identity comparison fails first); it becomes a defect as soon as copies share it")
 
 
+# ---------------------------------------------------------------------------------------------- R-REACTION-PROB
+def _is_mark(t, name):
+    return isinstance(t, ast.Call) and isinstance(t.func, ast.Name) and t.func.id == "§" + name
+
+
+def _has_loop(t):
+    return any(_is_mark(x, "loop") for x in ast.walk(t))
+
+
+def _parse_accum(t):
+    """§phi(init, §phi(init, §loop(..)) + addend)  ->  (init text, addend text); None when not an accumulation."""
+    if not _is_mark(t, "phi") or len(t.args) != 2:
+        return None
+    init = [a for a in t.args if not _has_loop(a)]
+    rec = [a for a in t.args if _has_loop(a)]
+    if len(init) != 1 or len(rec) != 1 or not (isinstance(rec[0], ast.BinOp) and isinstance(rec[0].op, ast.Add)):
+        return None
+    l, r = rec[0].left, rec[0].right
+    if _has_loop(r) and not _has_loop(l):
+        l, r = r, l
+    if not (_is_mark(l, "phi") and any(_is_mark(a, "loop") for a in l.args)):
+        return None
+    inner = [a for a in l.args if not _is_mark(a, "loop")]
+    if len(inner) != 1 or src(inner[0]) != src(init[0]) or _has_loop(r):
+        return None
+    return src(init[0]), src(r)
+
+
+def _quotient(t):
+    """(numerator, denominator) of a plain quotient a / b"""
+    if isinstance(t, ast.BinOp) and isinstance(t.op, ast.Div):
+        return t.left, t.right
+    return None
+
+
+def reaction_prob(eng, res, rule="R-REACTION-PROB"):
+    """The probability model mirrors the generator's choices: with a transition list the partner's entry over the
+    list's total; otherwise the partner's weight over the summed weight of the token's compatible descriptors;
+    the open atom is picked with its weight over the summed weight of all open atoms (1 when nothing has weight)."""
+    from ..ctext import cconj
+
+    fi = eng.prog.func_opt("mol_prob.PossibleMatch.react_open.react.get_reaction_prob")
+    if fi is None:
+        cands = [f for q, f in eng.prog.functions.items() if q.startswith("mol_prob.") and q.endswith("get_reaction_prob")]
+        if len(cands) != 1:
+            raise AnalysisError("mol_prob: get_reaction_prob not found")
+        fi = cands[0]
+    res.unit(fi)
+    fl = eng.flow(fi)
+    cfg = fl.cfg
+    if len(fi.params) != 3:
+        raise AnalysisError("get_reaction_prob: expected (open descriptor, partner descriptor, token)")
+    O, B, T = fi.params
+    rets = [r for r in own_nodes(fi.node) if isinstance(r, ast.Return) and r.value is not None]
+    alts = []
+    for r in rets:
+        t = fl.expand(r.value, cfg.node_of(r))
+        alts += list(t.args) if _is_mark(t, "phi") else [t]
+    got_list = got_weight = None
+    acc = None
+    for a in alts:
+        q = _quotient(a)
+        if q is None:
+            continue
+        num, den = src(q[0]), q[1]
+        if num == f"{O}.transitions[{B}.descriptor_num]" and src(den) == f"{O}.weight":
+            got_list = a
+        pa = _parse_accum(den)
+        if num == f"{B}.weight" and pa is not None:
+            got_weight, acc = a, pa
+    ok = got_list is not None and len(alts) == 2
+    res.ob(rule, fi, "list-law", "with a transition list: probability = list entry of the partner's descriptor number / the open descriptor's weight (= Σ list)", fi.node, ok,
+           f"alternatives: {[src(a)[:90] for a in alts]}")
+    ok = got_weight is not None and acc == ("0", f"§elem({T}.bond_descriptors).weight") and len(alts) == 2
+    res.ob(rule, fi, "weight-law", "without a list: probability = partner's weight / Σ weights of the token's descriptors (accumulated from 0)", fi.node, ok,
+           f"alternatives: {[src(a)[:110] for a in alts]}")
+    # which law under which condition, and the filter of the sum
+    lst = [d for d in fl.defs if d.kind == "assign" and d.value is not None and src(d.value) == f"{O}.transitions[{B}.descriptor_num]"]
+    ok = bool(lst) and all(f"{O}.transitions is not None" in {t for t, _ in _guards(fl, d.stmt)} for d in lst)
+    res.ob(rule, fi, "list-law-guard", "the list law applies exactly when the open descriptor carries a transition list", lst[0].stmt if lst else fi.node, ok)
+    augs = [d for d in fl.defs if d.kind == "aug" and isinstance(d.value, ast.Attribute) and d.value.attr == "weight" and cfg.enclosing_loops(d.stmt)]
+    okf, whyf = False, f"{len(augs)} accumulation(s) in a loop"
+    if len(augs) == 1:
+        d = augs[0]
+        loop = cfg.enclosing_loops(d.stmt)[0]
+        e = loop.target.id if isinstance(loop, ast.For) and isinstance(loop.target, ast.Name) else None
+        g = {t for t, _ in _guards(fl, d.stmt)}
+        okf = e is not None and src(d.value) == f"{e}.weight" and bool(g & {f"{e}.is_compatible({O})", f"{O}.is_compatible({e})"}) and f"{O}.transitions is not None" not in g
+        whyf = f"accumulates {src(d.value)} under {sorted(g)}"
+    res.ob(rule, fi, "weight-law-filter", "the sum runs over the token's descriptors compatible with the open descriptor", augs[0].stmt if augs else fi.node, okf, whyf)
+    # the open atom's pick probability
+    ha = [f for q, f in eng.prog.functions.items() if q.startswith("mol_prob.") and q.endswith(".handle_atom")]
+    if len(ha) != 1:
+        raise AnalysisError("mol_prob: handle_atom not found")
+    ha = ha[0]
+    res.unit(ha)
+    hf = eng.flow(ha)
+    uses = [c for c in own_nodes(ha.node) if isinstance(c, ast.Call) and isinstance(c.func, ast.Attribute) and c.func.attr == "copy" and c.args]
+    n_use = 0
+    for c in uses:
+        t = hf.expand(c.args[0], hf.cfg.node_of(c))
+        al = list(t.args) if _is_mark(t, "phi") else [t]
+        one = [a for a in al if isinstance(a, ast.Constant) and a.value == 1.0]
+        quo = [a for a in al if _quotient(a) is not None]
+        ok, why = False, f"alternatives {[src(a)[:100] for a in al]}"
+        if len(al) == 2 and len(one) == 1 and len(quo) == 1:
+            num, den = _quotient(quo[0])
+            pa = _parse_accum(den)
+            ns = src(num)
+            if pa is not None and ns.endswith(".bond_descriptor.weight") and "pop_open_atom(" in ns:
+                recv = ns[: ns.index(".pop_open_atom(")]
+                ok = pa == (ns, f"§elem({recv}._open_atoms).bond_descriptor.weight")
+                why = f"numerator {ns[-60:]}, sum starts at {pa[0][-50:]} and adds {pa[1][-70:]}"
+        res.ob(rule, ha, f"atom-pick@{n_use}", "a branch of the search is weighted by the popped atom's descriptor weight / (that weight + Σ weights of the remaining open atoms); 1 when no atom carries weight",
+               c, ok, why)
+        n_use += 1
+    # the value 1 applies exactly when the total is not positive
+    ones = [d for d in hf.defs if d.kind == "assign" and isinstance(d.value, ast.Constant) and d.value.value == 1.0]
+    divs = [d for d in hf.defs if d.kind == "assign" and _quotient(d.value) is not None and isinstance(d.value.right, ast.Name)]
+    ok = len(ones) == 1 and len(divs) == 1 and ones[0].name == divs[0].name
+    why = f"{len(ones)} constant-1 / {len(divs)} quotient definition(s)"
+    if ok:
+        tot = divs[0].value.right.id
+        gd, go = {t for t, _ in _guards(hf, divs[0].stmt)}, {t for t, _ in _guards(hf, ones[0].stmt)}
+        from ..ctext import ct
+
+        ok = ct(f"{tot} > 0") in gd and ct(f"{tot} > 0", False) in go
+        why = f"quotient under {sorted(gd)}, constant under {sorted(go)}"
+    res.ob(rule, ha, "atom-pick-zero-total", "the quotient is used exactly when the total weight is positive (otherwise probability 1: the single weightless atom)", divs[0].stmt if divs else ha.node, ok, why)
+    res.floor(rule, n_use, 3)
+
+
 def check(eng, res):
     res.doc("R-MATCH-COPY", "search copies are plain deep copies (independent states)")
     res.doc("R-DRAW-PARAMS", "prob_mw's cdf / pmf calls receive the family's own parameters (C11)")
@@ -213,5 +345,7 @@ def check(eng, res):
     c11.interval(eng, res)
     c11.draw_params(eng, res)
     match_copy(eng, res)
+    res.doc("R-REACTION-PROB", "per-step probabilities mirror the generator: list entry / list total; weight / Σ compatible weights; atom weight / Σ open atoms' weights")
+    reaction_prob(eng, res)
     res.assumptions += ["RDKit substructure matching enumerates the embeddings of a fragment"]
     res.not_decided += ["equality of the two numbers for all molecules", "the sum over the ensemble being 1", "atom-order invariance (RDKit substructure matching)", "reaction probabilities for objects with several repeat units"]
